@@ -1,7 +1,12 @@
 package main
 
 import (
+	"context"
+	"encoding/json"
 	"fmt"
+	"net/http"
+	"net/http/httptest"
+	"net/url"
 	"path"
 	"sort"
 	"strconv"
@@ -12,6 +17,8 @@ import (
 	. "verifharness/hlib"
 
 	"github.com/cnotch/ipchub/media"
+	"github.com/cnotch/ipchub/service"
+	"github.com/cnotch/xlog"
 	"github.com/cnotch/ipchub/utils"
 	"github.com/cnotch/ipchub/utils/verifhook"
 )
@@ -29,6 +36,41 @@ type nopConsumer struct{}
 
 func (nopConsumer) Consume(p media.Pack) {}
 func (nopConsumer) Close() error         { return nil }
+
+// ---- the service's real HTTP API (mux, interceptors, handlers) driven in-process ----
+
+var (
+	apiHandler http.Handler
+	apiToken   string
+)
+
+func apiInit() {
+	svc, err := service.NewService(context.Background(), xlog.L())
+	if err != nil {
+		Fatal("NewService: %v", err)
+	}
+	apiHandler = svc.VerifHandler()
+	apiToken = svc.VerifTokens().NewToken("admin").AToken // the built-in administrator
+}
+
+func apiCall(method, path string, q url.Values) (int, []byte) {
+	q.Set("token", apiToken)
+	req := httptest.NewRequest(method, "/", nil)
+	req.URL = &url.URL{Path: path, RawQuery: q.Encode()}
+	req.RequestURI = req.URL.RequestURI()
+	rec := httptest.NewRecorder()
+	apiHandler.ServeHTTP(rec, req)
+	if rec.Code == http.StatusMovedPermanently { // ServeMux cleans "//", "/./", "/../": follow it as a client would
+		if u, err := url.Parse(rec.Header().Get("Location")); err == nil {
+			req2 := httptest.NewRequest(method, "/", nil)
+			req2.URL = u
+			req2.RequestURI = u.RequestURI()
+			rec = httptest.NewRecorder()
+			apiHandler.ServeHTTP(rec, req2)
+		}
+	}
+	return rec.Code, rec.Body.Bytes()
+}
 
 // ---- the implementation side of one history ----
 
@@ -109,9 +151,11 @@ func (w *world) exec(tok string) (obs string) {
 			s.Close()
 		}
 		return "-"
-	case "stop": // service/apis.go onStopStream (its two calls are a translator fact)
-		if rt := media.Get(string(Unhx(f[1]))); rt != nil {
-			rt.Close()
+	case "stop": // DELETE /api/v1/streams/{path}: service/apis.go onStopStream through the real mux
+		p := string(Unhx(f[1]))
+		code, _ := apiCall("DELETE", "/api/v1/streams/"+strings.TrimPrefix(p, "/"), url.Values{})
+		if code != 200 {
+			return fmt.Sprintf("http%d", code)
 		}
 		return "-"
 	case "join":
@@ -163,14 +207,28 @@ func (w *world) exec(tok string) (obs string) {
 	case "count":
 		sc, cc := media.Count()
 		return fmt.Sprintf("n%d/%d", sc, cc)
-	case "infos":
-		n, _ := strconv.Atoi(f[2])
-		total, infos := media.Infos(string(Unhx(f[1])), n, false)
-		ps := make([]string, len(infos))
-		for i, si := range infos {
+	case "infos": // GET /api/v1/streams?page_size=&page_token= : service/apis.go onListStreams → media.Infos
+		q := url.Values{}
+		q.Set("page_size", f[2])
+		q.Set("page_token", string(Unhx(f[1])))
+		code, body := apiCall("GET", "/api/v1/streams", q)
+		if code != 200 {
+			return fmt.Sprintf("http%d", code)
+		}
+		var list struct {
+			Total   int `json:"total"`
+			Streams []struct {
+				Path string `json:"path"`
+			} `json:"streams"`
+		}
+		if err := json.Unmarshal(body, &list); err != nil {
+			return "badjson"
+		}
+		ps := make([]string, len(list.Streams))
+		for i, si := range list.Streams {
 			ps[i] = Hx([]byte(si.Path))
 		}
-		return fmt.Sprintf("p%d[%s]", total, strings.Join(ps, ","))
+		return fmt.Sprintf("p%d[%s]", list.Total, strings.Join(ps, ","))
 	case "idle":
 		if s := w.get(f[1]); s != nil {
 			media.VerifPostIdleTask(s)
@@ -409,7 +467,8 @@ func canonClass(kind, p string) string {
 }
 
 func runC05(c *Ctx) {
-	c.Res.Rule = "case = one history of registry operations (new/regist/unregist/close/stop/join/leave/idle-tick/get/count/infos/probe over 3 paths in 11 spellings) run on the real media package, or one two-thread race of Regist/Unregist through the verif points, or one string for CanonicalPath; distinct by the op line; non-trivial when the history registers at least one stream and observes at least one lookup"
+	apiInit()
+	c.Res.Rule = "case = one history of registry operations (new/regist/unregist/close/stop/join/leave/idle-tick/get/count/infos/probe over 3 paths in 11 spellings) run on the real media package (stop and listing through the service's HTTP API), or one two-thread race of Regist/Unregist through the verif points, or one string for CanonicalPath; distinct by the op line; non-trivial when the history registers at least one stream and observes at least one lookup"
 	var lines []string
 	type kase struct {
 		kind string // hist | race | canon
